@@ -857,9 +857,6 @@ class FunctionTranslator:
             for n in ast.walk(st):
                 if isinstance(n, (ast.Continue, ast.Break, ast.While)):
                     self.fail(n, "continue / break / while inside the generator loop")
-                if isinstance(n, ast.Name) and n.id == m and not (
-                        isinstance(getattr(n, "_parent_call", None), ast.Call)):
-                    pass
         touched = self.assigned(body)
         if g in touched:
             self.fail(w, "the loop variable is assigned in the loop")
@@ -878,14 +875,11 @@ class FunctionTranslator:
         inner = env.copy()
         inner.types[g] = STR
         head = "for_each %s" % m
-        note = ast.copy_location(ast.Expr(value=ast.Constant(value=None)), w)
         text = self.line(ind, "(* %d, %d, %d: %s = %s.next_guess(); while %s is not None: ...; %s = %s.next_guess() *)"
                          % (a.lineno, w.lineno, w.body[-1].lineno, g, m, g, g, m))
         # after the loop the generator is exhausted and g is None: neither may be used
-        after = env
-        out = self.loop(w, head, g, body, rest, after, inner, k, ind, skip=(g, m))
-        # (env.types[m] stays: a second loop over the same exhausted generator would be wrong)
-        return text + out
+        del env.types[m]
+        return text + self.loop(w, head, g, body, rest, env, inner, k, ind, skip=(g, m))
 
     # -------------------------------------------------------------- function
     def translate(self):
